@@ -71,6 +71,12 @@ func c04Run(f []string) (res string) {
 	switch f[0] {
 	case "big", "nocb":
 		return c04RunBig(f)
+	case "conc":
+		return c04RunConc(f)
+	case "conccases":
+		// the case list for the race-detector run of extra/C04.py: `conccases <seed>`
+		seed, _ := strconv.ParseUint(f[1], 10, 64)
+		return "ok " + strings.Join(c04GenConc(NewRand(seed), "race"), "|")
 	case "dropcr":
 		in := append([]byte{}, UnHex(f[1])...)
 		keep := append([]byte{}, in...)
@@ -219,6 +225,7 @@ func c04Gen(r *Rand, tier string) []string {
 	}
 	out = append(out, c04GenMore(r, tier)...)
 	out = append(out, c04GenBig(r, tier)...)
+	out = append(out, c04GenConc(r, tier)...)
 	if tier == "thorough" {
 		// exhaustive: all strings over {a,\n,\r} up to length 6 x buffer sizes 1..4 x one-byte reads / all-at-once
 		var rec func(cur []byte)
@@ -365,6 +372,9 @@ func c04Stats(cases []string) map[string]int {
 		st["kind."+f[0]]++
 		switch f[0] {
 		case "dropcr", "maxi":
+			continue
+		case "conc":
+			st["conc."+f[1]]++
 			continue
 		case "big":
 			st["big."+f[1]]++
